@@ -1242,6 +1242,159 @@ def C11(tier, seed, st):
     return res
 
 
+# ---------------------------------------------------------------- C17
+TOOL_FILES = gens.CANON_FILES   # variable -> file name
+
+
+def run_tool(served, workroot):
+    """serve `served` (file name -> bytes) on a loopback HTTP server, run the real tool (built from /repo with
+    -tags verif) in a fresh scratch directory, return (rc, log, {file name: written bytes or None}, scratch dir)"""
+    import http.server, threading, tempfile, os, subprocess
+    class H(http.server.BaseHTTPRequestHandler):
+        def do_GET(self):
+            name = self.path.rsplit("/", 1)[-1]
+            if name.endswith(".txt") and name[:-4] in served:
+                body = served[name[:-4]]
+                self.send_response(200)
+                self.send_header("Content-Length", str(len(body)))
+                self.end_headers()
+                self.wfile.write(body)
+            else:
+                self.send_response(404)
+                self.end_headers()
+        def log_message(self, *a):
+            pass
+    srv = http.server.ThreadingHTTPServer(("127.0.0.1", 0), H)
+    th = threading.Thread(target=srv.serve_forever, daemon=True)
+    th.start()
+    d = tempfile.mkdtemp(prefix="tool-", dir=workroot)
+    os.makedirs(os.path.join(d, "internal", "wordlist"))
+    open(os.path.join(d, "go.mod"), "w").write("module scratch\n\ngo 1.21\n")
+    try:
+        p = subprocess.run([os.path.join(common.BUILD, "update-wordlist")], cwd=d, timeout=300,
+                           env=dict(common.GOENV, BIP39_VERIF_WORDLIST_URL="http://127.0.0.1:%d" % srv.server_address[1]),
+                           stdout=subprocess.PIPE, stderr=subprocess.STDOUT, text=True)
+        rc, log = p.returncode, p.stdout
+    except subprocess.TimeoutExpired:
+        rc, log = -9, "timeout"
+    srv.shutdown()
+    out = {}
+    for name in served:
+        path = os.path.join(d, "internal", "wordlist", name + ".go")
+        out[name] = open(path, "rb").read() if os.path.exists(path) else None
+    return rc, log, out, d
+
+
+def tool_word(rng):
+    """a word of letters and combining marks from the scripts of the ten lists"""
+    k = rng.random()
+    if k < 0.5:
+        return rng.choice(gens.table(rng.choice(LANGS)))
+    n = rng.randrange(1, 9)
+    alph = rng.choice(["abcdefghijklmnopqrstuvwxyz", "áéíóúñüçàèâêîôûëïœ", "ěščřžýůďťň", "あいうえおかがきぎくぐ", "的一是在不了有和人这",
+                       u(0x1100, 0x1161, 0x11A8, 0x1102, 0x1175), "e" + u(0x301) + "a" + u(0x308) + "n" + u(0x303) + u(0x3099)])
+    return "".join(rng.choice(alph) for _ in range(n)).encode()
+
+
+def C17(tier, seed, st):
+    import os, shutil, subprocess, tempfile
+    res = Result("C17")
+    rng = random.Random(seed)
+    q = tier == "quick"
+    rc, out = common.sh(["go", "build", "-tags", "verif", "-o", os.path.join(common.BUILD, "update-wordlist"), "./update-wordlist"], cwd=common.REPO, env=common.GOENV, timeout=900)
+    if rc != 0:
+        res.notes.append("the tool does not build with -tags verif: " + out[-1500:])
+        res.corr_break(stream="T", case="-", why="update-wordlist does not build with the verif hook")
+        return res
+    workroot = tempfile.mkdtemp(prefix="verif-c17-")
+    names = sorted(TOOL_FILES.values())
+    var_of = {v: k for k, v in TOOL_FILES.items()}
+    try:
+        rounds = []
+        canon = {n: open(os.path.join(common.ROOT, "canon", n + ".txt"), "rb").read() for n in names}
+        rounds.append(("canonical", canon, True))
+        for r in range(2 if q else 30):
+            served = {}
+            for n in names:
+                cnt = rng.choice((0, 1, 2, 5, 40, 300) if q else (0, 1, 2, 5, 40, 300, 2048, 5000))
+                ws = [tool_word(rng) for _ in range(cnt)]
+                # blank lines at the start / middle / end
+                for _ in range(rng.randrange(0, 4)):
+                    ws.insert(rng.randrange(len(ws) + 1), b"")
+                if rng.random() < 0.3:
+                    ws = [b""] + ws
+                if rng.random() < 0.3:
+                    ws = ws + [b"", b""]
+                body = b"\n".join(ws)
+                if rng.random() < 0.6:
+                    body += b"\n"
+                served[n] = body
+            rounds.append(("random%d" % r, served, True))
+        # outside the domain (quotes, backslashes, markup, CR): recorded against the model, the property does not judge them
+        bad = {}
+        for n in names:
+            ws = [tool_word(rng) for _ in range(6)]
+            ws[rng.randrange(6)] = rng.choice([b'qu"ote', b"back\\slash", b"a<b", b"a&b", b"it's", b"c+d", b"cr\r", b"nul\x00x"])
+            bad[n] = b"\n".join(ws) + b"\n"
+        rounds.append(("outside-domain", bad, False))
+        for tag, served, judged in rounds:
+            rc, log, outs, d = run_tool(served, workroot)
+            if rc != 0:
+                res.violation(stream="T", case=tag, impl="rc=%s %s" % (rc, log[-600:]), model="", spec="the tool completes", why="the generator failed on served word files")
+                continue
+            # do the written files compile?
+            brc, bout = common.sh(["go", "build", "./..."], cwd=d, env=common.GOENV, timeout=600)
+            tl, gl, files = [], [], []
+            for n in names:
+                body = served[n]
+                files.append(n)
+                tl.append("TR %s %s" % (hx(var_of[n].encode()), hx(body)))
+                gl.append("GP %s" % os.path.join(d, "internal", "wordlist", n + ".go"))
+            rend = common.run_model(tl, "model")
+            parsed = common.run_impl(gl)
+            ml = common.run_model(["TL " + hx(outs[n] or b"") for n in names], "model")
+            for n, r_, g_, m_ in zip(names, rend, parsed, ml):
+                res.evaluations += 1
+                res.count("T/" + tag.rstrip("0123456789"))
+                body = served[n]
+                want = [w for w in body.split(b"\n") if w != b""]
+                res.nontrivial.add(hashlib.sha256(body + n.encode()).hexdigest())
+                case = {"round": tag, "file": n + ".txt", "variable": var_of[n], "served_hex": hx(body)[:4000]}
+                wl = "ok %s %d %s" % (hx(var_of[n].encode()), len(want), ",".join(hx(w) for w in want))
+                if judged:
+                    if outs[n] is None:
+                        res.violation(stream="T", case=case, impl="no file written", model=r_[:200], spec=wl[:300], why="no output file for this target")
+                        continue
+                    if brc != 0:
+                        res.violation(stream="T", case=case, impl="go build: " + bout[-600:], model="", spec="the written files compile", why="a generated file does not compile")
+                        continue
+                    if g_ != wl:
+                        res.violation(stream="T", case=case, impl=g_[:600], model=m_[:300], spec=wl[:600],
+                                      why="the list in the generated Go file is not exactly the non-empty input lines, in order, under the expected variable")
+                        continue
+                if r_ != "ok " + hx(outs[n] or b""):
+                    if judged or r_ != "none":
+                        res.corr_break(stream="T", case=case, impl=hx(outs[n] or b"")[:400], model=r_[:400], why="the bytes the tool wrote differ from the model's rendering of the template")
+                elif judged and m_ != g_:
+                    res.corr_break(stream="T", case=case, impl=g_[:300], model=m_[:300], why="the model's reader of Go list literals differs from go/parser")
+            if tag == "canonical":
+                # run on the canonical lists the tool reproduces the committed lists
+                cl = ["GP %s" % os.path.join(common.REPO, "internal", "wordlist", n + ".go") for n in names]
+                for n, a, b in zip(names, parsed, common.run_impl(cl)):
+                    res.evaluations += 1
+                    if a != b:
+                        res.violation(stream="T", case={"round": tag, "file": n}, impl=a[:300], model="", spec=b[:300],
+                                      why="run on the canonical upstream list the tool does not reproduce the committed list")
+            shutil.rmtree(d, ignore_errors=True)
+        res.sample({"round": "canonical", "files": names, "served": "canon/*.txt"})
+        res.sample({"round": "random0", "file": names[3], "served_hex": hx(rounds[1][1][names[3]])[:300]})
+    finally:
+        shutil.rmtree(workroot, ignore_errors=True)
+    res.streams["tool-runs"] = len(rounds)
+    res.notes.append("the real tool is built from /repo with -tags verif and run against a loopback HTTP server in a scratch directory (removed afterwards); outside-domain inputs are compared with the model only")
+    return res
+
+
 # ---------------------------------------------------------------- C12
 def C12(tier, seed, st):
     res = Result("C12")
@@ -1427,4 +1580,4 @@ def C07(tier, seed, st):
     return res
 
 
-CHECKS = {"C12": C12, "C04": C04, "C11": C11, "C07": C07, "C08": C08, "C13": C13, "C14": C14, "C01": C01, "C02": C02, "C03": C03, "C05": C05, "C06": C06, "C09": C09, "C10": C10, "C15": C15, "C16": C16}
+CHECKS = {"C17": C17, "C12": C12, "C04": C04, "C11": C11, "C07": C07, "C08": C08, "C13": C13, "C14": C14, "C01": C01, "C02": C02, "C03": C03, "C05": C05, "C06": C06, "C09": C09, "C10": C10, "C15": C15, "C16": C16}
